@@ -161,7 +161,7 @@ fn adv_scenario(rng: &mut StdRng, sc: usize, out: Box<dyn std::io::Write>, kv: &
     let interval = *[3u64, 4, 5][..].get(rng.gen_range(0..3)).unwrap();
     let npeers = rng.gen_range(1..=3usize);
     let built = build_tx_world(rng, pow, main_len, 1, 2, 3);
-    let cfg = Config { last_n, max_outbound: npeers as u32, interval, blocks_in_transit: rng.gen_range(1..=4) };
+    let cfg = Config { last_n, max_outbound: npeers as u32, interval, blocks_in_transit: rng.gen_range(1..=4), ..Default::default() };
     let leaf = built.leaves[0];
     let mut sim: Sim = new_sim(built.chain, cfg, npeers, out, &format!("{}-{}", if with_subst { "advsub" } else { "adv" }, sc), vec!["peersync", "filter"]);
     let nleaf = sim.chain.blocks[leaf].num;
@@ -265,7 +265,7 @@ fn sync_scenario(rng: &mut StdRng, sc: usize, out: Box<dyn std::io::Write>, kv: 
     let interval = *[3u64, 4, 5][..].get(rng.gen_range(0..3)).unwrap();
     let npeers = rng.gen_range(1..=3usize);
     let built = build_tx_world(rng, pow, main_len, 0, 1, 3);
-    let cfg = Config { last_n, max_outbound: npeers as u32, interval, blocks_in_transit: rng.gen_range(1..=4) };
+    let cfg = Config { last_n, max_outbound: npeers as u32, interval, blocks_in_transit: rng.gen_range(1..=4), ..Default::default() };
     let leaf = built.leaves[0];
     let mut sim: Sim = new_sim(built.chain, cfg, npeers, out, &format!("sync-{}", sc), vec!["peersync", "filter"]);
     let nleaf = sim.chain.blocks[leaf].num;
@@ -323,7 +323,7 @@ fn cp_scenario(rng: &mut StdRng, sc: usize, out: Box<dyn std::io::Write>, kv: &H
     let npeers = rng.gen_range(1..=((max_outbound as usize + 1).min(5)));
     let required = ((max_outbound + 1) / 2) as usize;
     let built = build_tx_world(rng, "dummy", main_len, 0, 1, 1);
-    let cfg = Config { last_n, max_outbound, interval, blocks_in_transit: 2 };
+    let cfg = Config { last_n, max_outbound, interval, blocks_in_transit: 2, ..Default::default() };
     let leaf = built.leaves[0];
     let mut sim: Sim = new_sim(built.chain, cfg, npeers, out, &format!("cp-{}", sc), vec!["peersync", "filter"]);
     let nleaf = sim.chain.blocks[leaf].num;
@@ -483,7 +483,7 @@ fn rand_scenario(rng: &mut StdRng, sc: usize, out: Box<dyn std::io::Write>, kv: 
     // fork depth below, at and above last-N
     let depth = rng.gen_range(1..=(last_n as usize + 2)).min(main_len - 1);
     let built = build_tx_world(rng, pow, main_len, forks, depth, 3);
-    let cfg = Config { last_n, max_outbound: npeers as u32, interval, blocks_in_transit: rng.gen_range(1..=4) };
+    let cfg = Config { last_n, max_outbound: npeers as u32, interval, blocks_in_transit: rng.gen_range(1..=4), ..Default::default() };
     let leaves = built.leaves.clone();
     let leaf = leaves[0];
     let mut sim: Sim = new_sim(built.chain, cfg, npeers, out, &format!("{}-{}", profile, sc), vec!["peersync", "filter"]);
@@ -709,7 +709,7 @@ fn fork_scenario(rng: &mut StdRng, sc: usize, out: Box<dyn std::io::Write>, kv: 
     let a_tip = gen::extend_with_txs(&mut chain, 0, a_len, &p, rng, &mut tg);
     let fork_at = chain.ancestor_at(a_tip, (a_len - depth) as u64).unwrap();
     let b_tip = gen::extend_with_txs(&mut chain, fork_at, depth + rng.gen_range(1..=3), &p, rng, &mut tg);
-    let cfg = Config { last_n, max_outbound: npeers as u32, interval, blocks_in_transit: rng.gen_range(1..=4) };
+    let cfg = Config { last_n, max_outbound: npeers as u32, interval, blocks_in_transit: rng.gen_range(1..=4), ..Default::default() };
     let mut sim: Sim = new_sim(chain, cfg, npeers, out, &format!("fork-{}", sc), vec!["peersync", "filter"]);
     let tips: Vec<(usize, usize)> = (0..npeers).map(|_| (a_tip, a_tip)).collect();
     let mut env = Env::new(&sim, &tips);
@@ -817,7 +817,7 @@ fn crash_history(seed: u64, sc: usize, k: Option<usize>, out: Box<dyn std::io::W
             }
         })));
     }
-    let cfg = Config { last_n, max_outbound: npeers as u32, interval, blocks_in_transit: 2 };
+    let cfg = Config { last_n, max_outbound: npeers as u32, interval, blocks_in_transit: 2, ..Default::default() };
     // first-run initialisation may itself be the crash point
     let dir = crate::verif::client::fresh_dir("crash");
     let consensus = chain.consensus.clone();
